@@ -549,9 +549,9 @@ var (
 	c04ReqNames = []string{"a.com", "b.a.com", "c.b.a.com", "x.c.b.a.com", "ba.com", "b.com", "x.b.com", "a.org", "w.a.org", "com", "z.net"}
 	c04ReqPorts = []string{"", ":80", ":8080", ":443"}
 
-	c04Paths      = []string{"/", "/a", "/a/", "/a/b", "/a/1", "/a/12", "/b", "/b/x", "/ab", "/c"}
-	c04Prefixes   = []string{"/", "/a", "/a/", "/a/b", "/b"}
-	c04PathRegex  = []string{"^/a/[0-9]+$", "^/(a|b)/.*$", "^/.*$", "^/a.*$", "^/[ab]$",
+	c04Paths     = []string{"/", "/a", "/a/", "/a/b", "/a/1", "/a/12", "/b", "/b/x", "/ab", "/c"}
+	c04Prefixes  = []string{"/", "/a", "/a/", "/a/b", "/b"}
+	c04PathRegex = []string{"^/a/[0-9]+$", "^/(a|b)/.*$", "^/.*$", "^/a.*$", "^/[ab]$",
 		// unanchored / half-anchored: a match may start anywhere in the path
 		"a/[0-9]+", "/[0-9]+$", "b", "/b$", "a/b|/c", "[0-9]{2}", "^/a", "x$"}
 	c04Methods    = []string{"GET", "POST", "PUT"}
